@@ -106,6 +106,30 @@ def decodeDop : (fuel : Nat) → Dop → DecM PVal
     let xs ← decodeToEnd item fuel
     modifyS fun s' => { s' with origin := s.origin }
     pure (.list xs)
+  | fuel+1, .mux bytePos swBytePos swBitPos swDop cases dflt => do
+    let s ← getS
+    modifyS fun s' => { s' with origin := s.cursorByte, cursorByte := s.cursorByte + swBytePos, cursorBit := swBitPos.getD 0 }
+    let kv ← decodeDop fuel swDop
+    modifyS fun s' => { s' with cursorBit := 0 }
+    match kv with
+    | .atom (.int key) => do
+      modifyS fun s' => { s' with cursorByte := s.cursorByte + bytePos }
+      let sel : Option (String × Option Dop) :=
+        match caseOfKey key cases with
+        | some c => some (c.name, c.struct)
+        | none => dflt
+      match sel with
+      | none => do
+        odxraise .decode                                         -- "Cannot find an applicable case"
+        modifyS fun s' => { s' with origin := s.origin }
+        pure (.list [.none, .none])
+      | some (name, st) => do
+        let v ← (match st with
+          | some d => decodeDop fuel d
+          | none => pure (.dict []))
+        modifyS fun s' => { s' with origin := s.origin }
+        pure (.pair name v)
+    | _ => do odxraise .odx; raise .unmodelled                   -- "Multiplexer keys must be integers"
   | _+1, .unsupported => raise .unmodelled
 
 def decodeStaticItems (item : Dop) (itemSize : Nat) : (fuel : Nat) → Nat → DecM (List PVal)
